@@ -38,6 +38,9 @@ def run(check: Check) -> None:
     check.out_of_scope += ["the absent-level half is exercised in C04", "columns changing kind inside Python-expression factors other than the menu"]
     n = mc.NROWS
     dtrain = mc.full_frame(A_TRAIN, B_TRAIN)
+    from . import ch_c20_run
+
+    ch_c20_run.run_c09(check, thorough)
     for formula in FORMULAS:
         for out in ("pandas", "numpy"):
             mm0 = model_matrix(formula, dtrain, output=out)
